@@ -304,6 +304,8 @@ static int gen_json_printer_struct(fb_output_t *out, fb_compound_type_t *ct)
     for (sym = ct->members; sym; ++index, sym = sym->link) {
         member = (fb_member_t *)sym;
         if (member->metadata_flags & fb_f_deprecated) {
+            /* The index decides on the comma: count printed members only. */
+            --index;
             continue;
         }
         switch (member->type.type) {
